@@ -63,6 +63,14 @@ from predicate.standard_predicates import AllPredicate
 from predicate.tuple_of_predicate import TupleOfPredicate
 
 
+def _as_set(values) -> set | None:
+    """Return the values as a set, or None when one of them is not hashable (dicts, sets, lists)."""
+    try:
+        return set(values)
+    except TypeError:
+        return None
+
+
 @singledispatch
 def generate_true[T](predicate: Predicate[T]) -> Iterator[T]:
     """Generate values that satisfy this predicate."""
@@ -85,7 +93,8 @@ def generate_all_p(all_predicate: AllPredicate) -> Iterator:
         yield random_combination_with_replacement(values, max_length)
 
         values = take(max_length, generate_true(predicate))
-        yield set(random_combination_with_replacement(values, max_length))
+        if (as_set := _as_set(random_combination_with_replacement(values, max_length))) is not None:
+            yield as_set
 
         values = take(max_length, generate_true(predicate))
         yield list(random_combination_with_replacement(values, max_length))
@@ -281,7 +290,8 @@ def generate_any_p(any_predicate: AnyPredicate) -> Iterator:
 
     yield random_combination_with_replacement(values, 5)
 
-    yield set(random_combination_with_replacement(values, 5))
+    if (as_set := _as_set(random_combination_with_replacement(values, 5))) is not None:
+        yield as_set
 
 
 @generate_true.register
@@ -314,5 +324,5 @@ def generate_set_of_p(
         values = take(length, generate_true(predicate))
 
         # set sizes can be smaller than required, because of duplicates
-        if len(result := set(values)) == length:
+        if (result := _as_set(values)) is not None and len(result) == length:
             yield result if order else random_permutation(result)
